@@ -57,6 +57,9 @@ func (s *Server) manifestDelete(repoStr, arg string) http.HandlerFunc {
 		// if referrers is enabled, remove entry from the referrers list
 		// deleting a tag leaves the manifest in place, so it remains a referrer
 		if *s.conf.API.Referrer.Enabled && !types.RefTagRE.MatchString(arg) {
+			// concurrent changes to the referrers of a subject would overwrite each other
+			s.referrerMu.Lock()
+			defer s.referrerMu.Unlock()
 			// wrap in a func to allow a return from errors without breaking the actual delete
 			err = func() error {
 				rdr, err := repo.BlobGet(desc.Digest)
@@ -403,6 +406,11 @@ func (s *Server) manifestPut(repoStr, arg string) http.HandlerFunc {
 			desc.Annotations = map[string]string{
 				types.AnnotRefName: tag,
 			}
+		}
+		if subject != "" {
+			// concurrent changes to the referrers of a subject would overwrite each other
+			s.referrerMu.Lock()
+			defer s.referrerMu.Unlock()
 		}
 		err = repo.IndexInsert(desc, addOpts...)
 		if err != nil {
